@@ -26,6 +26,8 @@ def run(chk, tier):
                 'compile-fail witnesses (with compiling twins) show the builder rejects multi-use quantifiers for non-Clone values.')
     for cfg in configs(tier, thorough=('std', 'nostd-spin', 'nostd')):
         F = load(chk, cfg)
+        from props import builder as B
+        B.conversion_table(chk, F, 'R12.6', cfg)
         # ---- R12.1 bounds
         once = impl_of(F, r'^output::IntoReturnOnce$', ref_rx=r'IntoReturnOnce<output::owning::Owning<T>>')
         multi = impl_of(F, r'^output::IntoReturn$', ref_rx=r'IntoReturn<output::owning::Owning<T>>')
